@@ -288,7 +288,7 @@ def rich_array(rng, depth=0):
                 d = b - prev[1]
                 useless = False
             else:
-                d = rng.choice([1, -1]) if k2 != "c" else 1
+                d = rng.choice([1, -1])
                 useless = True
             if abs(d) > 12 or (k2 == "c" and not (40 < b + 3 * d < 120)):
                 continue
@@ -317,6 +317,76 @@ def rep_then_range(rng):
     return "%dx%s%s%s ... %s" % (m, _lit(k, v), sep(rng, False), _lit(k, b), _lit(k, c)), \
         ["R:%d:0" % m, "%s:%d" % (k, v), "R:%d:1" % n, "%s:%d" % (k, d), "%s:%d" % (k, b)]
 
+def _clit(v):
+    """a char literal as a writer of the text would put it"""
+    if v == 39:
+        return "'\\''"
+    if v == 92:
+        return "'\\\\'"
+    return "'%c'" % v
+
+def _tlit(k, v):
+    return _clit(v) if k == "c" else "%d%s" % (v, "h" if k == "h" else "")
+
+def implied_step_range(rng):
+    """"b ... c" of type i / h / c with the implied unit step (doc/Guide.adoc: d := sgn(c-b)),
+    ascending and descending, standing at the start of the text or directly after a value of
+    ANOTHER type (no usable "a"): returns (text, slots).  The caller puts it first in the
+    sentence or after whatever came before; the left neighbour made here is of another type."""
+    k = rng.choice("ihccc")
+    d = rng.choice([1, -1, -1])
+    n = rng.randint(2, 9)
+    if k == "c":
+        b = rng.randint(33 + 9, 126 - 9)
+    elif k == "i":
+        b = rng.choice([rng.randint(-20, 20), 2147483647 - 9 - rng.randint(0, 3), -2147483648 + 9 + rng.randint(0, 3)])
+    else:
+        b = rng.choice([rng.randint(-20, 20), (1 << 40) + rng.randint(-5, 5), -(1 << 62)])
+    c = b + d * (n - 1)
+    rt = _tlit(k, b) + sep(rng, False) + "..." + sep(rng, False) + _tlit(k, c)
+    rs = ["R:%d:1" % n, "%s:%d" % (k, d), "%s:%d" % (k, b)]
+    q = rng.random()
+    if q < 0.4:
+        return rt, rs                         # (the caller may put it at the very start)
+    # a left neighbour of another type
+    others = [x for x in "ihcsTNfS" if x != k]
+    o = rng.choice(others)
+    if o in "ihc":
+        v = rng.randint(60, 90) if o == "c" else rng.randint(-30, 30)
+        lt, ls = _tlit(o, v), ["%s:%d" % (o, v)]
+    elif o == "s":
+        lt, ls = '"ab"', ["s:6162"]
+    elif o == "S":
+        lt, ls = "sym_1", ["S:" + b"sym_1".hex()]
+    elif o == "T":
+        lt, ls = rng.choice([("true", ["T"]), ("false", ["F"])])
+    elif o == "N":
+        lt, ls = "nil", ["N"]
+    else:
+        lt, ls = "0.5", [f32(0.5)]
+    if q < 0.55:
+        m = rng.randint(2, 5)                 # a repetition of another type in front
+        return "%dx%s" % (m, lt) + sep(rng) + rt, ["R:%d:0" % m] + ls + rs
+    return lt + sep(rng) + rt, ls + rs
+
+def run_end_array(rng):
+    """an array whose last >= 5 elements are a constant or unit-step run (printed back compressed)
+    directly followed, outside the array, by a value that would continue the run"""
+    k = rng.choice("ihc")
+    d = rng.choice([0, 1, -1, 2])
+    n = rng.randint(5, 7)
+    b = rng.randint(60, 90) if k == "c" else rng.randint(-30, 30)
+    vals = [b + d * j for j in range(n)]
+    pre = []
+    if rng.random() < 0.3:
+        pre = [b - 7]
+    allv = pre + vals
+    parts = [_tlit(k, v) for v in allv]
+    slots = ["%s:%d" % (k, v) for v in allv]
+    text = "[" + sep(rng, False).join(parts) + "]"
+    nxt = b + d * n
+    return text + sep(rng) + _tlit(k, nxt), ["a:%d:%d" % (ord(k), len(slots))] + slots + ["%s:%d" % (k, nxt)]
+
 def structured(rng):
     """ranges, repetitions, arrays: (text, slots)"""
     q = rng.random()
@@ -326,6 +396,10 @@ def structured(rng):
         return rich_array(rng)
     if q < 0.5:
         return rep_then_range(rng)
+    if q < 0.62:
+        return implied_step_range(rng)
+    if q < 0.66:
+        return run_end_array(rng)
     q = rng.random()
     if q < 0.3:
         n = rng.randint(1, 9)
@@ -379,11 +453,12 @@ def gen(rng, tier, dist):
                 # (doc/Guide.adoc): keep such a neighbour away unless it is meant
                 # (after an array the scanner takes the array's last element: finding
                 # range-after-array, generated on purpose now and then)
+                has_ell = re.search(r"\s\.\.\.\s", t) is not None
                 tt0 = re.sub(r"(^|\s)%[^\n]*", " ", text).rstrip(" \n\t")
                 # (a range after an array that ends in an open range: the closing bracket is no
                 # neighbour for the checker since fix D31; generated, with the array's last slot of
                 # another type so that the scanner finds no neighbour either)
-                if " ... " in t and not t.startswith("[") and tt0.endswith("]") and tt0[:-1].rstrip(" \n\t").endswith("..."):
+                if has_ell and not t.startswith("[") and tt0.endswith("]") and tt0[:-1].rstrip(" \n\t").endswith("..."):
                     if re.sub(r"(^|\s)%[^\n]*", " ", prev_t).count("...") >= 2:
                         # the array holds another range in front of its open one: the checker's search
                         # finds that one first (class range-after-array) - kept apart
@@ -391,7 +466,7 @@ def gen(rng, tier, dist):
                         slots.append("N")
                     else:
                         bump("range-after-open-array")
-                if " ... " in t and slots and slots[-1][0] == sl[-1][0]:
+                if has_ell and slots and slots[-1][0] == sl[-1][0]:
                     tt = text.rstrip(" \n\t")
                     after_array = tt.endswith("]") and not tt[:-1].rstrip(" \n\t").endswith("...")
                     if not (after_array and not t.split(" ... ")[0].count(" ") and rng.random() < 0.5):
@@ -469,5 +544,6 @@ LEVEL_TEXT = ("Partial. For every sentence of the modelled fragment (values of C
               "text consumed, values = denotation, white-space invariance, reprint (C11_agree_denotes_partial, "
               "C11_simulation_partial, C11_ws_invariant_partial, C11_reprint_partial). Alternative numeric spellings, comments, "
               "identifiers, colours/MIDI/BLOB are in the model and compared with the implementation; NxA, ranges and arrays are "
-              "now in the model and compared with the implementation; NxV repetitions are in the theorems (C11_elements_agree_partial).")
+              "now in the model and compared with the implementation; NxV repetitions are in the theorems (C11_elements_agree_partial); "
+              "sentences of items and arrays of items without a range tail directly after an array: C10_mixed_reads_partial.")
 LEVEL_NOTE = "See notes/C11.md (fragment limits, known finding range-after-array)."
